@@ -353,3 +353,24 @@ PLANS["C12"] = dict(
     assumptions=["integer coordinates of magnitude <= 30 so that all squared distances and cross products fit 32 bits"],
     trusted_base=["TLC 2026.09.04", "CommunityModules Json/IOUtils"],
 )
+
+# ---- C17 -------------------------------------------------------------------------------------------
+
+
+def run_c17(ctx):
+    ctx.mc("ResampleMC", "ResampleMC_%s.cfg" % ctx.tier, note="cumulative-distance walk = closed form, exactly N points, for every axis-aligned path and N")
+    shards = ctx.gen("resample")
+    ctx.validate("Resample_Trace", shards)
+    ctx.exhaustive = True
+    ctx.notes.append("exhaustive part: every path of <=3 (quick) / <=4 (thorough) steps from a 12-step set (axis-aligned, 3-4-5, zero-length) x N in {-1,0,1,2,3,4,5,7,8,13}")
+
+
+PLANS["C17"] = dict(
+    run=run_c17, signature=sig_default,
+    technique="TLA+ closed form of evenly spaced arclength positions in exact rational arithmetic and a transcription of the cumulative-distance walk; TLC checks walk = closed form and validates traces of real Resample/ToInterval calls on integer-length paths",
+    level_text="TLC checks that the transcription of the cumulative-distance walk (with its pinned last step) returns exactly N points equal to the closed form k*L/(N-1) for every axis-aligned path of <=3 (4) segments of length 0..3 (4) and N to 8 (12). Real calls are recorded for every path of <=3 (4) steps from a set of axis-aligned, Pythagorean and zero-length steps and N in -1..13, for seeded longer paths with N to 25, intervals d = dn/dd (incl. d <= 0, d > L, d | L), an L1 distance function on arbitrary integer paths, nil/empty/one-vertex/all-coincident lines; outputs are projected to the event's exact lattice 1/((N-1)*lcm lengths) and TLC requires equality with the closed form and the edge-case rules. For the great-circle distance functions TLC checks count, bit-identical endpoints and order.",
+    level_note="Exact positions only for integer segment lengths (residual > 1e-7 lattice units = 'offlattice' event, rejected). For geo.Distance / DistanceHaversine only count, endpoints and order are judged. Trusted: TLC, Json module, lattice projection, rank interning.",
+    rule="one event = one real Resample/ToInterval call; non-trivial = N >= 2 on a line of positive length; distinct = distinct event text",
+    assumptions=["segment lengths are integers under the distance function used (by construction of the step set / L1 metric)"],
+    trusted_base=["TLC 2026.09.04", "CommunityModules Json/IOUtils", "harness lattice projection"],
+)
